@@ -559,6 +559,30 @@ def warmup_wrap(ctx: Ctx):
         ok = g_ok
         why = f"inner baseline's wrap_dataset iff alpha > 0 (strict): {g_ok}; otherwise the warm-up baseline's"
     ctx.ob("C20.d", "WarmupBaseline.wrap_dataset:guard", ok, fw.loc, why, construct="WarmupBaseline.wrap_dataset:guard")
+    # ... and while 0 < alpha < 1 the MIXTURE must reach the loss.  Two cooperating sites: REINFORCE.calculate_loss takes
+    # `bl_val = extra` whenever the batch carries one and skips baseline.eval; so the training set may carry the inner baseline's
+    # values only once that baseline applies alone (alpha == 1).  Reference: the property's "convex combination whose weight moves
+    # from zero to one", not today's guard.
+    rf = ctx.repo.get_function("rl4co/models/rl/reinforce/reinforce.py", "REINFORCE.calculate_loss")
+    if rf is None:
+        raise AnalysisError("REINFORCE.calculate_loss not found")
+    ctx.fn(rf)
+    bypass = [n for n in ast.walk(rf.node) if isinstance(n, ast.IfExp) and isinstance(n.orelse, ast.Tuple) and n.orelse.elts and isinstance(n.orelse.elts[0], ast.Name)
+              and isinstance(n.test, ast.Compare) and isinstance(n.test.left, ast.Name) and n.test.left.id == n.orelse.elts[0].id
+              and any(isinstance(c, ast.Call) and isinstance(c.func, ast.Attribute) and c.func.attr == "eval" for c in ast.walk(n.body))]
+    only_alone = False
+    if len(inner) == 1 and isinstance(inner[0], vg.S):
+        r_ = nf.cmpnf(inner[0])
+        only_alone = r_ is not None and ((r_[1] == "==0" and r_[0] in (nf.poly(A("alpha")) - nf.Poly.const(1), nf.Poly.const(1) - nf.poly(A("alpha"))))
+                                         or (r_[1] == ">=0" and r_[0] == nf.poly(A("alpha")) - nf.Poly.const(1)))
+    okm = only_alone or not bypass
+    ctx.ob("C20.d", "WarmupBaseline.wrap_dataset:mixture-reaches-the-loss", okm, fw.loc,
+           "the training set carries the inner baseline's values only when alpha == 1" if only_alone else
+           ("REINFORCE.calculate_loss always evaluates the baseline" if not bypass else
+            f"wrap_dataset delegates to the inner baseline for every alpha > 0 and REINFORCE.calculate_loss (line {bypass[0].lineno}) takes `extra` as the baseline value without calling "
+            "WarmupBaseline.eval: for 0 < alpha < 1 (n_epochs >= 2, an inner baseline that wraps the dataset) the inner baseline enters at weight 1 and the warm-up baseline at weight 0 "
+            "instead of alpha and 1 - alpha"),
+           construct="WarmupBaseline.wrap_dataset:mixture-bypassed-by-extra")
 
 
 def _alpha_eq(c, k):
